@@ -114,6 +114,7 @@ func tableEngine() evid.Engine {
 }
 
 func TestCheck(t *testing.T) {
+	testingT = t
 	r := evid.New(t, "C20")
 	r.SetExhaustive()
 	engines := []evid.Engine{tableEngine()}
